@@ -200,6 +200,19 @@ def run(ctx):
             st["agreed"] += 1
             st["distinct"].add(("pipe", q, k))
         st["hist"]["pipe_status_%s" % rc] += 1
+    # ---- known finding F47: content columns on a FIFO block (replayed; generators keep FIFOs out of content queries) ----
+    from .common import load_known
+    for k in load_known():
+        if k["property"] == "C17" and k["status"] == "known" and k["id"] == "F47":
+            d = os.path.join(ctx.scratch, "f47")
+            os.mkdir(d)
+            os.mkfifo(os.path.join(d, "p"))
+            open(os.path.join(d, "plain"), "w").close()
+            r = ctx.impl.run(["name, sha1 from f47 where is_pipe = true"], cwd=ctx.scratch, timeout=4)
+            if r["status"] == "hang":
+                ctx.known_lines.append("KNOWN-FINDING: property=C17 F47 a content column on a FIFO blocks forever (File::open on a pipe without a writer)")
+            else:
+                ctx.notes.append("F47: witness no longer hangs (status %s); update KNOWN_FINDINGS.json" % r["status"])
     ctx.coverage.update(
         evaluations=st["evaluations"], distinct_nontrivial=len(st["distinct"]), traces_validated_against_impl=st["agreed"],
         rule="(1) random trees with 0-3 directories made unlistable (modes 700/711/000) searched as uid 65534, bfs and dfs, with and without maxdepth: rows must be exactly the entries outside those directories, stderr must name each failing directory, status 1 iff one is in reach; compared with model.Walk (listable flags from the observer) and an independent listing; (2) files made unreadable (600) and dangling links: only their own sha1/line_count/is_shebang are empty, sizes and other rows unchanged (hashlib oracle); (3) the reader closes stdout after k bytes for k in %s.. x six formats x streamed/ordered/filtered paths (+ aggregate and grouped): status 0 or 1 and no panic text. non-trivial = a run with at least one fault in reach" % offsets[:6],
